@@ -599,6 +599,60 @@ func truncation(pkts []*types.Packet, wire []byte, ends []int, cut int, fresh bo
 	return ""
 }
 
+// tempErr is a transient transport error (EAGAIN, a deadline): Temporary and Timeout report true.
+type tempErr struct{}
+
+func (tempErr) Error() string   { return "resource temporarily unavailable" }
+func (tempErr) Temporary() bool { return true }
+func (tempErr) Timeout() bool   { return true }
+
+// hiccupReader delivers data[:at], then answers one Read with a transient error and no bytes, then delivers the rest.
+type hiccupReader struct {
+	data []byte
+	at   int
+	pos  int
+	done bool
+}
+
+func (r *hiccupReader) Read(p []byte) (int, error) {
+	if r.pos == r.at && !r.done {
+		r.done = true
+		return 0, tempErr{}
+	}
+	if r.pos >= len(r.data) {
+		return 0, io.EOF
+	}
+	end := len(r.data)
+	if r.pos < r.at && !r.done {
+		end = r.at
+	}
+	n := copy(p, r.data[r.pos:end])
+	r.pos += n
+	return n, nil
+}
+
+// transient: one read of the underlying reader fails with a transient error after `at` bytes of the stream were
+// delivered. Whether RecvMsg reports that error or rides it out is not fixed; but every packet it returns up to its
+// first error is the next packet that was sent - never bytes from a lost frame boundary.
+func transient(pkts []*types.Packet, wire []byte, at int) (msg string) {
+	defer func() {
+		if r := recover(); r != nil {
+			msg = fmt.Sprintf("panic: %v", r)
+		}
+	}()
+	rd := util.NewProtoStream(context.Background(), &hiccupReader{data: wire, at: at}, nil)
+	for i := range pkts {
+		var got types.Packet
+		if err := rd.RecvMsg(&got); err != nil {
+			return ""
+		}
+		if !pktEq(&got, pkts[i]) {
+			return fmt.Sprintf("RecvMsg #%d returned a packet that was never sent (type %v id %d, %d data bytes; sent: type %v id %d, %d data bytes)", i, got.Type, got.ID, len(got.Data), pkts[i].Type, pkts[i].ID, len(pkts[i].Data))
+		}
+	}
+	return ""
+}
+
 // resend: one packet object is sent, changed and sent again (and again); what is read back is each value as it was sent.
 func resend(sizes []int) (msg string) {
 	defer func() {
@@ -678,7 +732,16 @@ func runC20(r *evid.Run) {
 				return w.Bytes(), ends
 			}
 			cnt := int64(0)
-			for _, ps := range [][]*types.Packet{small, big} {
+			// payloads that are themselves the beginning of a packet whose data field runs d bytes past the
+			// payload: read from the wrong offset, such a frame decodes - into a packet nobody sent
+			var nested []*types.Packet
+			for i, d := range []int{6, 2, 4, 8, 5, 7} {
+				n := 20 + i
+				pl := append([]byte{0x18, 0x09, 0x22, byte(n - 4 + d)}, bytes.Repeat([]byte{byte('a' + i)}, n-4)...)
+				nested = append(nested, &types.Packet{Type: types.PACKET_DATA, ID: 7, Data: pl}, &types.Packet{Type: types.PACKET_DATA, ID: uint32(i), Data: []byte("x")})
+			}
+			nested = append(nested, &types.Packet{Type: types.PACKET_FIN})
+			for _, ps := range [][]*types.Packet{small, big, nested} {
 				wire, ends := frameAll(ps)
 				cuts := map[int]bool{}
 				for c := 0; c <= len(wire); c++ {
@@ -697,6 +760,12 @@ func runC20(r *evid.Run) {
 						r.Violate("truncated:"+firstWord(m), fmt.Sprintf("(%s in the process) stream of %d bytes cut after %d: %s", when, len(wire), c, m), c20Case{Kind: "truncated", Pkts: encAll(ps), Cuts: []int{c}})
 					}
 					cnt++
+					if c < len(wire) {
+						if m := transient(ps, wire, c); m != "" {
+							r.Violate("transient-error:"+firstWord(m), fmt.Sprintf("stream of %d bytes, one read fails with a transient error after %d bytes: %s", len(wire), c, m), c20Case{Kind: "transient", Pkts: encAll(ps), Cuts: []int{c}})
+						}
+						cnt++
+					}
 				}
 			}
 			for _, sz := range [][]int{{100, 10, 300}, {10, 100}, {40000, 5, 40000}, {0, 1, 0}, {33000, 32000}} {
@@ -838,6 +907,82 @@ func runC20(r *evid.Run) {
 		}
 		n.Add(cnt)
 		r.Add("extreme_length_inputs", cnt)
+	}
+	// xattr map entries as other encoders write them: a member with its default value left off the wire, members in
+	// the other order, a member given twice (the last one wins). All legal; the hand-optimised decoders and the
+	// generic runtime must agree on the value, and no decoded value may share memory with another
+	{
+		lp := func(tag byte, v string) []byte { return append([]byte{tag, byte(len(v))}, v...) }
+		type form struct {
+			wire []byte
+			k, v string
+		}
+		forms := func(k, v string) []form {
+			return []form{{append(lp(0x0a, k), lp(0x12, v)...), k, v}, {lp(0x0a, k), k, ""}, {lp(0x12, v), "", v}, {nil, "", ""},
+				{append(lp(0x12, v), lp(0x0a, k)...), k, v}, {append(lp(0x0a, k), lp(0x12, "")...), k, ""},
+				{append(append(lp(0x0a, "old"), lp(0x0a, k)...), lp(0x12, v)...), k, v}, {append(append(lp(0x0a, k), lp(0x12, "old")...), lp(0x12, v)...), k, v}}
+		}
+		kv := [][2]string{{"user.a", "AAAA"}, {"user.b", "B"}, {"user.cc", "CCCCCCCC"}}
+		cnt := int64(0)
+		var rec func(i int, wire []byte, want map[string]string)
+		rec = func(i int, wire []byte, want map[string]string) {
+			if i > 0 {
+				cnt++
+				b := append(lp(0x0a, "p"), wire...)
+				var g types.Stat
+				gerr := proto.Unmarshal(b, &g)
+				dec := map[string]func([]byte) (*types.Stat, error){
+					"UnmarshalVT": func(b []byte) (*types.Stat, error) { var s types.Stat; return &s, s.UnmarshalVT(b) },
+					"Unmarshal":   func(b []byte) (*types.Stat, error) { var s types.Stat; return &s, s.Unmarshal(b) },
+					"UnmarshalVTUnsafe": func(b []byte) (*types.Stat, error) {
+						var s types.Stat
+						return &s, s.UnmarshalVTUnsafe(append([]byte{}, b...))
+					}}
+				for name, f := range dec {
+					v, err := f(b)
+					if err != nil || gerr != nil {
+						if (err == nil) != (gerr == nil) {
+							r.Violate("map-entry-forms", fmt.Sprintf("%s of %x: %v, generic runtime: %v", name, b, err, gerr), c20Case{Kind: "mapentry", Bytes: b})
+						}
+						continue
+					}
+					ok := len(v.Xattrs) == len(want) && xEq(v.Xattrs, g.Xattrs)
+					for k, w := range want {
+						ok = ok && string(v.Xattrs[k]) == w
+					}
+					if !ok {
+						r.Violate("map-entry-forms", fmt.Sprintf("%s of %x gives xattrs %q, generic runtime %q, written %q", name, b, v.Xattrs, g.Xattrs, want), c20Case{Kind: "mapentry", Bytes: b})
+						continue
+					}
+					// values own their memory
+					for k := range v.Xattrs {
+						for j := range v.Xattrs[k] {
+							v.Xattrs[k][j] = '#'
+						}
+						for k2, w := range want {
+							if k2 != k && string(v.Xattrs[k2]) != w {
+								r.Violate("map-entry-forms", fmt.Sprintf("%s of %x: xattr values %q and %q share memory", name, b, k, k2), c20Case{Kind: "mapentry", Bytes: b})
+							}
+						}
+						copy(v.Xattrs[k], want[k])
+					}
+				}
+			}
+			if i == len(kv) {
+				return
+			}
+			for _, f := range forms(kv[i][0], kv[i][1]) {
+				w2 := map[string]string{}
+				for k, v := range want {
+					w2[k] = v
+				}
+				w2[f.k] = f.v
+				rec(i+1, append(append(append([]byte{}, wire...), 0x52, byte(len(f.wire))), f.wire...), w2)
+			}
+		}
+		rec(0, nil, map[string]string{})
+		n.Add(cnt)
+		r.Add("map_entry_form_inputs", cnt)
 	}
 	r.Sample(map[string]any{"decoded_strings": "all byte strings of length <=3 and all strings of length <=" + fmt.Sprint(maxLen) + " over 24 structural bytes"})
 	// every single-byte substitution, truncation and duplication of valid encodings
@@ -1014,6 +1159,27 @@ func replayC20(raw json.RawMessage) string {
 	switch c.Kind {
 	case "decode":
 		return decodeArbitrary(c.Bytes)
+	case "mapentry":
+		var g, v, u types.Stat
+		gerr, verr, uerr := proto.Unmarshal(c.Bytes, &g), v.UnmarshalVT(c.Bytes), u.UnmarshalVTUnsafe(append([]byte{}, c.Bytes...))
+		if (gerr == nil) != (verr == nil) || (gerr == nil) != (uerr == nil) {
+			return fmt.Sprintf("decoders disagree on validity: generic %v, UnmarshalVT %v, UnmarshalVTUnsafe %v", gerr, verr, uerr)
+		}
+		if gerr == nil && (!xEq(g.Xattrs, v.Xattrs) || !xEq(g.Xattrs, u.Xattrs)) {
+			return fmt.Sprintf("xattrs: generic runtime %q, UnmarshalVT %q, UnmarshalVTUnsafe %q", g.Xattrs, v.Xattrs, u.Xattrs)
+		}
+		for k := range v.Xattrs {
+			for j := range v.Xattrs[k] {
+				v.Xattrs[k][j] = '#'
+			}
+			for k2 := range g.Xattrs {
+				if k2 != k && !bytes.Equal(v.Xattrs[k2], g.Xattrs[k2]) {
+					return fmt.Sprintf("xattr values %q and %q share memory", k, k2)
+				}
+			}
+			copy(v.Xattrs[k], g.Xattrs[k])
+		}
+		return ""
 	case "roundtrip-stat":
 		var s types.Stat
 		if err := s.UnmarshalVT(c.Stat); err != nil {
@@ -1028,7 +1194,7 @@ func replayC20(raw json.RawMessage) string {
 		return roundTripPacket(&p)
 	case "resend":
 		return resend(c.Cuts)
-	case "truncated":
+	case "truncated", "transient":
 		var ps []*types.Packet
 		for _, b := range c.Pkts {
 			p := &types.Packet{}
@@ -1046,6 +1212,9 @@ func replayC20(raw json.RawMessage) string {
 		}
 		if len(c.Cuts) != 1 || c.Cuts[0] > w.Len() {
 			return "bad case"
+		}
+		if c.Kind == "transient" {
+			return transient(ps, w.Bytes(), c.Cuts[0])
 		}
 		if m := truncation(ps, w.Bytes(), ends, c.Cuts[0], true); m != "" {
 			return m
